@@ -131,6 +131,15 @@ def run_case(case, ctx):
         want = [E] + [OS.entropy([d - b for b, d in o]) for o in others[: k - 1]]
         expect(ctx, "value-list", pe(ctx, lst), want, "list of %d diagrams" % k, {"dgms": [D] + others[: k - 1]})
         expect(ctx, "value-list", pe(ctx, lst[::-1]), want[::-1], "list of %d diagrams reversed" % k, {"dgms": ([D] + others[: k - 1])[::-1]})
+    # lists of diagrams with EQUAL bar counts (a vectorised path could stack them) x normalize
+    if n >= 2:
+        twin = np.array([[b + 1.0, b + 1.0 + 2.0 * l] for l, b in zip(ls[::-1], births)], dtype=float)  # same count, other lengths
+        El = OS.entropy([2.0 * l for l in ls])
+        for k, lst, want in ((2, [A, twin], [E, El]), (3, [twin, A, A[::-1].copy()], [El, E, E]), (4, [A, A, twin, A], [E, E, El, E])):
+            for normalize in (False, True):
+                w = [x / math.log(n) for x in want] if normalize else want
+                expect(ctx, "value-list-equal-shapes", pe(ctx, lst, normalize=normalize), w,
+                       "list of %d diagrams with %d bars each, normalize=%r" % (k, n, normalize), {"dgms": [np.asarray(x).tolist() for x in lst]})
     # a bar of non-positive length must raise instead of yielding a number
     for badbar in ([1.0, 1.0], [2.0, 1.0]):
         for pos in (0, n):
